@@ -82,14 +82,28 @@ def _fault_fs(s, task, call, path):
             continue
         if f.get('task') != task.name or task.op != f.get('op', task.op):
             continue
-        if task.op_fs != f['n']:
-            continue
-        if f.get('calls') and call not in f['calls']:
-            continue
-        f['done'] = True
-        f['where'] = [call, _short(path)]
+        if f.get('lasting') and f.get('active_call'):
+            # a condition that outlasts one system call (descriptors exhausted, permission lost, device error): every later
+            # call of the same kind within the same operation fails the same way
+            if call != f['active_call'] or task.op_fs <= f['n']:
+                continue
+            f['repeats'] = f.get('repeats', 0) + 1
+            if f['repeats'] >= f.get('lasting_calls', 3):
+                f['done'] = True       # ... and then passes (some loops in the library retry until a file can be read)
+        else:
+            if task.op_fs != f['n']:
+                continue
+            if f.get('calls') and call not in f['calls']:
+                continue
+            if f.get('lasting'):
+                f['active_call'] = call
+            else:
+                f['done'] = True
+            f['where'] = [call, _short(path)]
         s.fire('oserr')
         s.fire('oserr:' + call)
+        if f.get('repeats'):
+            s.fire('oserr:lasting')
         if f.get('errno') == 'INTERRUPT':
             # not an OSError at all: what a signal handler raises in the middle of a system call (KeyboardInterrupt, SystemExit);
             # the process survives it and goes on
@@ -325,15 +339,21 @@ class SimSqlite:
 # ---------------------------------------------------------------------------
 # files
 
+RAW_WRITE_MAX = 4096      # what one write() system call on a raw (unbuffered) file accepts at most
+
+
 class SimFile:
     """Unbuffered-at-the-seam wrapper around a real file: every write / read /
     close is a seam event; a kill during writing leaves a seeded prefix."""
 
-    def __init__(self, s, real, path, mode):
+    def __init__(self, s, real, path, mode, raw=False):
         self.sim = s
         self.real = real
         self.path = path
         self.mode = mode
+        # opened with buffering=0: write() is the system call itself, which may accept only part of what it is given and
+        # says so in its return value (a buffered writer loops by itself; a raw one leaves that to its caller)
+        self.raw = raw
         self.writing = any(c in mode for c in 'wxa+')
         self.proc = s.cur_proc()
         self.dead = False
@@ -359,6 +379,9 @@ class SimFile:
                 raise exc
         if self.dead:
             raise Killed()
+        if self.raw and len(data) > RAW_WRITE_MAX:
+            data = bytes(data[:RAW_WRITE_MAX])
+            self.sim.raw_short_writes = getattr(self.sim, 'raw_short_writes', 0) + 1
         n = self.real.write(data)
         self.real.flush()
         return n
@@ -447,7 +470,8 @@ def sim_open(path, mode='r', *args, **kwargs):
         return builtins.open(path, mode, *args, **kwargs)
     _fs_seam('open', path)
     real = builtins.open(path, mode, *args, **kwargs)
-    return SimFile(s, real, str(path), mode)
+    buffering = args[0] if args else kwargs.get('buffering', -1)
+    return SimFile(s, real, str(path), mode, raw=(buffering == 0 and 'b' in mode))
 
 
 class SimPath:
@@ -499,9 +523,9 @@ class SimOS:
         return _os.makedirs(path, *args, **kwargs)
 
     @staticmethod
-    def remove(path):
+    def remove(path, **kwargs):
         _fs_seam('remove', path)
-        return _os.remove(path)
+        return _os.remove(path, **kwargs)
 
     @staticmethod
     def removedirs(path):
